@@ -264,20 +264,46 @@ Proof.
   - reflexivity.
 Qed.
 
+Lemma existsb_mapi : forall (f h : nat -> bool) (g : nat -> nat -> nat) l k,
+  (forall k' x, k <= k' -> f (g k' x) = h x) -> existsb f (mapi_from k g l) = existsb h l.
+Proof.
+  intros f h g l. induction l as [|x l IH]; intros k H; [reflexivity|].
+  cbn [mapi_from existsb]. rewrite (H k x (le_n k)). f_equal. apply IH. intros k' y Hk. apply H. lia.
+Qed.
+
+(* whether a jump entry names the end of the stream is the same before and after relocation *)
+Lemma end_target_sh : forall s, (il init0 s = 0 -> nth_error (cj s) 0 = Some 0) ->
+  existsb (Nat.eqb (il init (shS s))) (cj (shS s)) = existsb (Nat.eqb (il init0 s)) (cj s).
+Proof.
+  intros s H. rewrite il_sh. unfold shS. cbn [cj].
+  destruct (Nat.eq_dec (il init0 s) 0) as [E|E].
+  - specialize (H E). rewrite E. destruct (cj s) as [|x l]; [discriminate|]. cbn in H. inversion H; subst x.
+    cbn [mapi_from existsb]. unfold shJ at 1. cbn. rewrite Nat.eqb_refl. reflexivity.
+  - apply existsb_mapi. intros k x _. unfold shJ.
+    destruct (Nat.eqb k 0).
+    + destruct (Nat.eqb_spec (il init0 s) x); [subst; apply Nat.eqb_refl | apply Nat.eqb_neq; lia].
+    + destruct (Nat.eqb_spec x 0).
+      * subst x. transitivity false; [apply Nat.eqb_neq; lia | symmetry; apply Nat.eqb_neq; exact E].
+      * destruct (Nat.eqb_spec (il init0 s) x); [subst; apply Nat.eqb_refl | apply Nat.eqb_neq; lia].
+Qed.
+
 Lemma finish_shift : forall s ends, ends_shape ends ->
+  (il init0 s = 0 -> nth_error (cj s) 0 = Some 0) ->
   finish init (shS s) (map (shift_instr dj) ends) = shS (finish init0 s ends).
 Proof.
-  intros s ends [Hd|[[j Hd]|[j Hd]]]; subst ends.
+  intros s ends [Hd|[[j Hd]|[j Hd]]] Htg; subst ends.
   - change (map (shift_instr dj) default_end) with default_end.
-    unfold finish, default_end. cbn [fold_left]. rewrite last_instr_sh.
+    unfold finish, default_end. cbn [fold_left]. rewrite last_instr_sh. rewrite (end_target_sh s Htg).
     destruct (ci s) as [|c0 cs] eqn:E.
     + unfold last_instr. rewrite E. cbn [rev]. cbn [init0 i_last_instr].
       destruct (i_last_instr init) as [li|]; [|rewrite sh_emit; reflexivity].
-      destruct (instr_eqb li (I_EndExpression, ONone) && instruction_eqb (fst (I_EndExpression, ONone)) I_EndExpression);
+      destruct (instr_eqb li (I_EndExpression, ONone) && instruction_eqb (fst (I_EndExpression, ONone)) I_EndExpression
+                && negb (existsb (Nat.eqb (il init0 s)) (cj s)));
         [reflexivity | rewrite sh_emit; reflexivity].
     + destruct (last_instr init0 s) as [li|]; cbn [option_map]; [|rewrite sh_emit; reflexivity].
       rewrite instr_eqb_shift_end.
-      destruct (instr_eqb li (I_EndExpression, ONone) && instruction_eqb (fst (I_EndExpression, ONone)) I_EndExpression);
+      destruct (instr_eqb li (I_EndExpression, ONone) && instruction_eqb (fst (I_EndExpression, ONone)) I_EndExpression
+                && negb (existsb (Nat.eqb (il init0 s)) (cj s)));
         [reflexivity | rewrite sh_emit; reflexivity].
   - cbn [map]. change (shift_instr dj (I_JumpTo, ONum j)) with (I_JumpTo, ONum (j + dj)).
     rewrite !finish_jump_g. rewrite sh_emit. reflexivity.
@@ -320,16 +346,17 @@ Proof.
   destruct (patch_ok i0 _ _ _ _ Hp) as [_ [Hci [_ Hlen]]].
   destruct (inl_ext i0 lit_ok _ _ _ _ _ _ _ Hinl) as [a [b [c [Ha [_ [Hc _]]]]]].
   assert (E3 : il i0 s2 <= il i0 (finish i0 s2 (p_end p)) /\ cj (finish i0 s2 (p_end p)) = cj s2).
-  { unfold finish. generalize (last_instr i0 s2). intros last. generalize (p_end p). intros ends.
+  { unfold finish. generalize (last_instr i0 s2). intros last. generalize (existsb (Nat.eqb (il i0 s2)) (cj s2)). intros tg.
+    generalize (p_end p). intros ends.
     assert (G : forall acc, il i0 s2 <= il i0 acc -> cj acc = cj s2 ->
                 il i0 s2 <= il i0 (fold_left (fun acc e => match last with
-                   | Some li => if instr_eqb li e && instruction_eqb (fst e) I_EndExpression then acc else emit acc e None
+                   | Some li => if instr_eqb li e && instruction_eqb (fst e) I_EndExpression && negb tg then acc else emit acc e None
                    | None => emit acc e None end) ends acc) /\
                 cj (fold_left (fun acc e => match last with
-                   | Some li => if instr_eqb li e && instruction_eqb (fst e) I_EndExpression then acc else emit acc e None
+                   | Some li => if instr_eqb li e && instruction_eqb (fst e) I_EndExpression && negb tg then acc else emit acc e None
                    | None => emit acc e None end) ends acc) = cj s2).
     { induction ends as [|e ends IHe]; intros acc Hi Hcj; cbn [fold_left]; [auto|].
-      destruct last as [li|]; [destruct (instr_eqb li e && instruction_eqb (fst e) I_EndExpression)|];
+      destruct last as [li|]; [destruct (instr_eqb li e && instruction_eqb (fst e) I_EndExpression && negb tg)|];
         apply IHe; auto; rewrite ?il_emit; try lia. }
     apply G; auto. }
   destruct E3 as [E3 Hcj3].
@@ -377,15 +404,16 @@ Lemma run_body_mono_finish : forall s ends,
   il init0 s <= il init0 (finish init0 s ends) /\ cj (finish init0 s ends) = cj s.
 Proof.
   intros s ends. unfold finish. generalize (last_instr init0 s). intros last.
+  generalize (existsb (Nat.eqb (il init0 s)) (cj s)). intros tg.
   assert (G : forall acc, il init0 s <= il init0 acc -> cj acc = cj s ->
               il init0 s <= il init0 (fold_left (fun acc e => match last with
-                 | Some li => if instr_eqb li e && instruction_eqb (fst e) I_EndExpression then acc else emit acc e None
+                 | Some li => if instr_eqb li e && instruction_eqb (fst e) I_EndExpression && negb tg then acc else emit acc e None
                  | None => emit acc e None end) ends acc) /\
               cj (fold_left (fun acc e => match last with
-                 | Some li => if instr_eqb li e && instruction_eqb (fst e) I_EndExpression then acc else emit acc e None
+                 | Some li => if instr_eqb li e && instruction_eqb (fst e) I_EndExpression && negb tg then acc else emit acc e None
                  | None => emit acc e None end) ends acc) = cj s).
   { induction ends as [|e ends IHe]; intros acc Hi Hcj; cbn [fold_left]; [auto|].
-    destruct last as [li|]; [destruct (instr_eqb li e && instruction_eqb (fst e) I_EndExpression)|];
+    destruct last as [li|]; [destruct (instr_eqb li e && instruction_eqb (fst e) I_EndExpression && negb tg)|];
       apply IHe; auto; rewrite ?il_emit; try lia. }
   apply G; auto.
 Qed.
@@ -402,7 +430,7 @@ Proof.
   change (plain (p_containing p + dj)) with (shCx (plain (p_containing p))).
   rewrite (inl_shift (p_tree p) (p_jump p) (plain (p_containing p)) s1 (shS s1) eq_refl Hn1).
   destruct (inl init0 lit_ok (p_jump p) (p_tree p) (plain (p_containing p)) s1) as [[[s2 ps] its]|e|x|] eqn:Ei; cbn [shRes shOut bind]; try reflexivity.
-  rewrite (finish_shift s2 (p_end p) Hshape).
+  rewrite (finish_shift s2 (p_end p) Hshape) by (intros E0; exfalso; pose proof (ext_il init0 _ _ (inl_ext init0 lit_ok _ _ _ _ _ _ _ Ei)); assert (il init0 s1 = il init0 s) by (unfold il; rewrite Hci; reflexivity); lia).
   rewrite <- map_rev.
   pose proof (inl_ext init0 lit_ok _ _ _ _ _ _ _ Ei) as E12.
   pose proof (ext_il init0 _ _ E12) as Eil.
@@ -440,7 +468,7 @@ Proof.
   rewrite (inl_shift t 0 (plain 0) s1 (shS s1) eq_refl Hn1).
   destruct (inl init0 lit_ok 0 t (plain 0) s1) as [[[s2 ps] its]|e|x|] eqn:Ei; cbn [shRes shOut bind]; try reflexivity.
   change default_end with (map (shift_instr dj) default_end) at 1.
-  rewrite (finish_shift s2 default_end (or_introl eq_refl)).
+  rewrite (finish_shift s2 default_end (or_introl eq_refl)) by (intros _; destruct (inl_ext init0 lit_ok _ _ _ _ _ _ _ Ei) as [a0 [b0 [c0 [_ [_ [Hcj0 _]]]]]]; rewrite Hcj0; reflexivity).
   rewrite <- map_rev.
   pose proof (inl_ext init0 lit_ok _ _ _ _ _ _ _ Ei) as E12.
   assert (Hn2 : cj s2 <> []) by (eapply inl_nonempty; eauto).
